@@ -3,6 +3,8 @@ encode and decode types.
 
 """
 
+import struct
+
 try:
     import diskcache
     has_diskcache = True
@@ -248,7 +250,14 @@ def _compile_files_cache(filenames,
                          encoding,
                          cache_dir,
                          numeric_enums):
-    key = [codec.encode('ascii')]
+    # Everything the compiled specification depends on is part of the
+    # key: the codec, the options and the contents of each file.
+    key = [
+        codec.encode('ascii'),
+        repr(bool(numeric_enums)).encode('ascii'),
+        repr(encoding).encode('utf-8'),
+        repr(any_defined_by_choices).encode('utf-8')
+    ]
 
     if isinstance(filenames, str):
         filenames = [filenames]
@@ -257,7 +266,9 @@ def _compile_files_cache(filenames,
         with open(filename, 'rb') as fin:
             key.append(fin.read())
 
-    key = b''.join(key)
+    # Prefix each part with its length, so that different lists of
+    # parts never give the same key.
+    key = b''.join([struct.pack('>Q', len(part)) + part for part in key])
     cache = diskcache.Cache(cache_dir)
 
     try:
@@ -359,8 +370,9 @@ def compile_files(filenames,
 
     `cache_dir` specifies the compiled files cache location in the
     file system. Give as ``None`` to disable the cache. By default the
-    cache is disabled. The cache key is the concatenated contents of
-    given files and the codec name. Using a cache will significantly
+    cache is disabled. The cache key is the codec name, the options
+    `any_defined_by_choices`, `encoding` and `numeric_enums`, and the
+    contents of each given file. Using a cache will significantly
     reduce the compile time when recompiling the same files. The cache
     directory is automatically created if it does not exist. Remove
     the cache directory `cache_dir` to clear the cache.
